@@ -8,7 +8,7 @@ use refimpl::ntlm::{self, Account, Challenge};
 use serde::{Deserialize, Serialize};
 
 pub const LEVEL: &str = "exploration";
-pub const RULE: &str = "case = (domain, user, password or NT hash; CHALLENGE with an 8-byte server challenge, target name, a random subset and order of AV pairs 1..10 always containing MsvAvTimestamp, flags = mandatory set plus a random subset of VERSION / UNICODE / 56 / REQUEST_TARGET / TARGET_TYPE_*, payload order and padding variants). Oracle = independent MS-NLMP server verification given only the three messages and the account's NT hash: all offset/length pairs inside the token and non-overlapping, user/domain decode to the account, NTProofStr verifies, client-challenge blob well formed with the server's timestamp and AV pairs, LM response Z(24) or valid LMv2, RC4-wrapped session key unwraps, MIC verifies over the three messages; then a message sealed by build_security_interface() unseals under keys derived from the unwrapped session key. hash-login and password-login verify against the same account. Non-trivial = non-empty credentials and >= 2 AV pairs; distinct by hash of the case.";
+pub const RULE: &str = "case = (domain, user, password or NT hash; CHALLENGE with an 8-byte server challenge, target name, a random subset and order of AV pairs 1..10 always containing MsvAvTimestamp, flags = mandatory set plus a random subset of VERSION / UNICODE / 56 / REQUEST_TARGET / TARGET_TYPE_*, payload order and padding variants). Oracle = independent MS-NLMP server verification given only the three messages and the account's NT hash: all offset/length pairs inside the token and non-overlapping, user/domain decode to the account, NTProofStr verifies, client-challenge blob well formed with the server's timestamp and AV pairs, LM response Z(24) or valid LMv2, RC4-wrapped session key unwraps, MIC verifies over the three messages; then a message sealed by build_security_interface() unseals under keys derived from the unwrapped session key. hash-login and password-login verify against the same account. matrix enumerates every subset of the five optional flags x every subset of the nine optional AV pairs x both payload orders, and every (user length, domain length) and (user length, password length) pair in 0..=40. Non-trivial = non-empty credentials and >= 2 AV pairs; distinct by hash of the case.";
 
 #[derive(Serialize, Deserialize, Hash, Clone, Debug)]
 pub struct Case {
@@ -180,11 +180,60 @@ pub fn decode(s: &mut Src) -> Case {
     Case { domain, user, password, from_hash: s.chance(100), challenge, message: s.fill(ml) }
 }
 
+/// every subset of the optional flags x every subset of the optional AV pairs x both payload orders, and
+/// identities of every length 0..=40 (user, domain, password independently at the edges)
+fn matrix(part: usize, parts: usize) -> impl Iterator<Item = Case> {
+    let flags = [ntlm::NEG_VERSION, ntlm::NEG_56, ntlm::NEG_REQUEST_TARGET, ntlm::NEG_TARGET_TYPE_SERVER, ntlm::NEG_TARGET_TYPE_DOMAIN];
+    let ids = [1u16, 2, 3, 4, 5, 6, 8, 9, 10];
+    let n_flag_av = 32 * 512 * 2;
+    let n_len = 41 * 41 * 2;
+    (part..n_flag_av + n_len).step_by(parts).map(move |i| {
+        let mut c = Case {
+            domain: "Domain".into(),
+            user: "User".into(),
+            password: "Password".into(),
+            from_hash: i % 3 == 0,
+            challenge: Challenge { flags: ntlm::MANDATORY | ntlm::NEG_UNICODE, server_challenge: vec![1, 2, 3, 4, 5, 6, 7, 8], target_name: refimpl::crypto::utf16le("SRV"), target_info: Vec::new(), version: vec![6, 1, 0xB1, 0x1D, 0, 0, 0, 15], payload_order: 0, gap: 0, max_len_delta: 0 },
+            message: vec![0x42; 9],
+        };
+        if i < n_flag_av {
+            let fm = i % 32;
+            let am = (i / 32) % 512;
+            c.challenge.payload_order = (i / (32 * 512)) as u8;
+            for (k, f) in flags.iter().enumerate() {
+                if fm >> k & 1 == 1 {
+                    c.challenge.flags |= f;
+                }
+            }
+            for (k, id) in ids.iter().enumerate() {
+                if am >> k & 1 == 1 {
+                    c.challenge.target_info.push((*id, vec![(k as u8) ^ 0x30; (k * 5) % 23]));
+                }
+            }
+            let pos = (i / 7) % (c.challenge.target_info.len() + 1);
+            c.challenge.target_info.insert(pos, (7, vec![0x11, 0x22, 0x33, 0x44, 0x55, 0x66, 0x77, 0x01]));
+        } else {
+            let j = i - n_flag_av;
+            let (a, b, which) = (j % 41, (j / 41) % 41, j / (41 * 41));
+            let mk = |n: usize, base: char| -> String { (0..n).map(|k| char::from_u32(base as u32 + (k % 26) as u32).unwrap()).collect() };
+            c.user = mk(a, 'a');
+            if which == 0 {
+                c.domain = mk(b, 'A');
+            } else {
+                c.password = mk(b, 'p');
+            }
+            c.challenge.target_info = vec![(2, refimpl::crypto::utf16le("DOM")), (7, vec![9; 8]), (1, refimpl::crypto::utf16le("SRV"))];
+        }
+        c
+    })
+}
+
 pub fn check(rep: &Report) {
     rep.assume("user names use characters whose uppercase mapping is one BMP code unit under Unicode and Windows alike (no sharp s, ligatures, final sigma, cased supplementary-plane letters)");
     rep.assume("the MIC is located as the 16 bytes between the fixed header implied by the flags and the first payload byte (the client omits the Version field when the flag is off)");
     rep.assume("without NTLMSSP_NEGOTIATE_UNICODE only ASCII identities are generated (OEM code page undefined)");
     rep.assume("the trailing Z(4) of the NTLMv2 client challenge is optional");
+    rep.enumerate("matrix", true, matrix, run);
     rep.random("tokens", rep.tier.n(300_000, 6_000_000), 200, decode, run);
     rep.require("tokens", "from-hash", 2000);
     rep.require("tokens", "version-flag", 2000);
